@@ -100,7 +100,7 @@ theorem spec_maildirWrite {cs : List Bytes} (env : PEnv) (md : Maildir) (ms : Ms
   · exact ⟨hg.good, rfl⟩
   rename_i fl _
   refine wp_bind_mono (wp_inv_mono (spec_genname env md (some fl) cs p0 n0 fid0 (fun _ => True) (fun _ _ _ _ _ => trivial)
-    4096 _ hg trivial) fun _ h => h.good) ?_
+    gennameAttempts _ hg trivial) fun _ h => h.good) ?_
   rintro g w1 ⟨hg1, -, hnew⟩
   cases g with
   | none => exact ⟨hg1.good, rfl⟩
